@@ -64,6 +64,8 @@ THEOREMS = [
     "XalanModel.Props.C14.late_attribute_ignored_fixed",
     "XalanModel.Props.C14.element_empty_namespace_fixed",
     "XalanModel.Props.C14.excluded_not_emitted",
+    "XalanModel.Props.C14.alias_replaced",
+    "XalanModel.Props.C14.exec_pending_attrs_nodup_qname",
 ]
 
 XML = G.XML
@@ -223,7 +225,9 @@ def compare(exp, act):
         if e.get("kind") == "L":
             used = used_uris(a)
             for p, u in a["decls"]:
-                if u in e.get("excluded", ()) and u not in used:
+                if u in e.get("aliased", ()) and u not in used:
+                    return ("alias-source-emitted", e["id"], "xmlns%s=%s on %s is the stylesheet side of a namespace-alias and unused" % (":" + p if p else "", u, a["qname"]))
+                if not e.get("aliased") and u in e.get("excluded", ()) and u not in used:
                     return ("excluded-emitted", e["id"], "xmlns%s=%s on %s is excluded and unused" % (":" + p if p else "", u, a["qname"]))
         r = compare(e["kids"], a["kids"])
         if r:
@@ -382,6 +386,7 @@ def load_corpus():
             if f.endswith(".json"):
                 out.append(json.load(open(os.path.join(d, f)))["case"])
     for c in out:
+        c["aliases"] = [tuple(x) for x in c.get("aliases", [])]
         c["rootdecls"] = [tuple(x) for x in c["rootdecls"]]
         fix_tuples(c["src"])
         for b in c["body"]:
@@ -536,6 +541,7 @@ def replay(ctx, path):
         print("replay file names broken obligations only:", [o["name"] for o in d.get("broken_obligations", [])])
         return 1
     case["rootdecls"] = [tuple(x) for x in case["rootdecls"]]
+    case["aliases"] = [tuple(x) for x in case.get("aliases", [])]
     fix_tuples(case["src"])
     for b in case["body"]:
         fix_instr(b)
